@@ -111,7 +111,7 @@ func probeLowercaseNames(c *core.Ctx, gr *genRun) {
 	gr.probeMay("R3", "two fields whose names differ in the case of the first letter", geneval.FileSpec{GoPackage: "example.com/x/gen",
 		Structs: []geneval.Value{b.Struct("CaseF", false, 0, geneval.FieldSpec{Name: "a", Shape: S("int32")}, geneval.FieldSpec{Name: "A", Shape: S("int32")})}}, geneval.AllOptions(), true)
 	gr.probeMay("R3", "two definitions whose names differ in the case of the first letter", geneval.FileSpec{GoPackage: "example.com/x/gen",
-		Structs: []geneval.Value{b.Struct("caseD", false, 0, geneval.FieldSpec{Name: "a", Shape: S("int32")})},
+		Structs:  []geneval.Value{b.Struct("caseD", false, 0, geneval.FieldSpec{Name: "a", Shape: S("int32")})},
 		Messages: []geneval.Value{b.Message("CaseD", 0, geneval.NumField{Num: 1, FieldSpec: geneval.FieldSpec{Name: "a", Shape: S("int32")}})}}, geneval.AllOptions(), true)
 	gr.probe("R3", "a readonly struct field named like a generated method", geneval.FileSpec{GoPackage: "example.com/x/gen",
 		Structs: []geneval.Value{b.Struct("RoClash", true, 0, geneval.FieldSpec{Name: "Size", Shape: S("int32")})}}, geneval.AllOptions())
